@@ -227,5 +227,28 @@ func (o Outcome) TraceLines(hard, soft string, n int) []string {
 	if len(o.Fields) > 0 {
 		h += " " + strings.Join(o.Fields, " ")
 	}
-	return []string{h, fmt.Sprintf("%s %d %s:%d", soft, n, o.Codespace, o.Code)}
+	out := []string{h, fmt.Sprintf("%s %d %s:%d", soft, n, o.Codespace, o.Code)}
+	if o.Class == "panic" {
+		out = append(out, fmt.Sprintf("p %d %s", n, oneToken(o.Log)))
+	}
+	return out
+}
+
+// BrokenInvariants evaluates every invariant registered with the crisis keeper on the committed
+// state and returns one soft line per broken (or panicking) invariant.
+func (r *Runner) BrokenInvariants() []string {
+	var out []string
+	ctx := r.App.NewContext(true, r.header())
+	for _, ir := range r.App.CrisisKeeper.Routes() {
+		ir := ir
+		var broken bool
+		if p := guard(func() { _, broken = ir.Invar(ctx) }); p != nil {
+			out = append(out, fmt.Sprintf("x inv %s panic", ir.FullRoute()))
+			continue
+		}
+		if broken {
+			out = append(out, fmt.Sprintf("x inv %s broken", ir.FullRoute()))
+		}
+	}
+	return out
 }
